@@ -277,3 +277,92 @@ def b3(prog):
                          "msg": "parse_subquery can return the parse tree although yyparse did not report success (a failed parse leaves the tree pointer null: crash instead of an error object)",
                          "detail": None})
     return inst, findings
+
+
+# ---------------------------------------------------------------------------
+# B4: recursion through the parser is depth-bounded
+
+def b4(prog):
+    """Nesting written with brackets is bounded by bison's own stack limit (YYMAXDEPTH), but a format-string splice re-enters
+    the parser through the scanner: yyparse -> yylex -> parse_subquery -> yyparse.  Every call-graph cycle through yyparse must
+    contain a depth guard (a counter compared with a constant on a path to a throw, incremented on the way in), otherwise the
+    length of the query alone decides whether the C stack overflows."""
+    inst, findings = [], []
+    funcs = prog.funcs
+    yp = [fid for fid, f in funcs.items() if f["n"] == "yyparse" and f.get("body") is not None]
+    if len(yp) != 1:
+        raise Broken("anchor yyparse vanished")
+    graph = {}
+    for fid, f in funcs.items():
+        if f.get("body") is None:
+            continue
+        graph[fid] = {c.get("fid") for c in calls(f["body"]) if c.get("fid") in funcs}
+    # functions on a cycle through yyparse: reachable from it and reaching it
+    def reach(start, g):
+        seen, st = set(), [start]
+        while st:
+            x = st.pop()
+            for y in g.get(x, ()):
+                if y not in seen:
+                    seen.add(y)
+                    st.append(y)
+        return seen
+    rev = {}
+    for a, bs in graph.items():
+        for b in bs:
+            rev.setdefault(b, set()).add(a)
+    cyc = reach(yp[0], graph) & reach(yp[0], rev)
+    key = "B4:yyparse-recursion"
+    if not cyc:
+        inst.append((key, {"cycle": None}))
+        return inst, findings
+    names = sorted(funcs[x]["q"] for x in cyc)
+    # depth guard: in a function of the cycle (or a local class of one), a static-storage or member counter compared with a constant
+    # where a throw is reachable, and incremented somewhere in the same group
+    group = [funcs[x] for x in cyc if funcs[x]["n"] not in ("yyparse", "yylex")]
+    group += [f for f in funcs.values() if f.get("body") is not None and any(f["q"].startswith(g["q"] + "(") or f["q"].startswith(g["q"] + "::") for g in group)]
+    guard = None
+    for f in group:
+        body = f["body"]
+        incs = set()
+        for x in walk(body):
+            if x.get("k") == "un" and x.get("op") == "++" or (x.get("k") == "asg" and x.get("op") in ("+=", "=")):
+                t = unwrap(x.get("e") if x.get("k") == "un" else x.get("lhs"))
+                if isinstance(t, dict) and t.get("k") == "ref" and t.get("d") in ("slocal", "global"):
+                    incs.add(t.get("id"))
+        cmps = set()
+        for x in walk(body):
+            if x.get("k") == "if" and any(y.get("k") == "throw" for y in walk(x.get("then"))):
+                for y in walk(x["c"]):
+                    if y.get("k") == "bin" and y.get("op") in (">", ">=", "==", "<", "<="):
+                        for a, b in ((y["lhs"], y["rhs"]), (y["rhs"], y["lhs"])):
+                            ua, ub = unwrap(a), unwrap(b)
+                            if isinstance(ua, dict) and ua.get("k") == "ref" and ua.get("d") in ("slocal", "global") and isinstance(ub, dict) and (ub.get("k") == "int" or "iv" in ub):
+                                cmps.add(ua.get("id"))
+        if incs & cmps:
+            guard = f["q"]
+        # the increment may live in the constructor of a local guard class: look at the whole group
+    if guard is None:
+        all_incs, all_cmps = set(), set()
+        for f in group:
+            for x in walk(f["body"]):
+                if (x.get("k") == "un" and x.get("op") == "++") or (x.get("k") == "asg" and x.get("op") in ("+=",)):
+                    t = unwrap(x.get("e") if x.get("k") == "un" else x.get("lhs"))
+                    if isinstance(t, dict) and t.get("k") == "ref" and t.get("d") in ("slocal", "global"):
+                        all_incs.add(t.get("q") or t.get("n"))
+                if x.get("k") == "if" and any(y.get("k") == "throw" for y in walk(x.get("then"))):
+                    for y in walk(x["c"]):
+                        if y.get("k") == "bin" and y.get("op") in (">", ">=", "==", "<", "<="):
+                            for a, b in ((y["lhs"], y["rhs"]), (y["rhs"], y["lhs"])):
+                                ua, ub = unwrap(a), unwrap(b)
+                                if isinstance(ua, dict) and ua.get("k") == "ref" and ua.get("d") in ("slocal", "global") and isinstance(ub, dict) and (ub.get("k") == "int" or "iv" in ub):
+                                    all_cmps.add(ua.get("q") or ua.get("n"))
+        if all_incs & all_cmps:
+            guard = "guard class"
+    inst.append((key, {"cycle": names, "depth_guard_in": guard}))
+    if guard is None:
+        findings.append({"key": key, "where": "libzwerg/parser.yy",
+                         "msg": "the parser re-enters itself through %s without any bound on the depth: a query of a few thousand nested format-string "
+                                "splices (`\"%%( \"%%( ... %%)\" %%)\"`, 24 KB for 3000 levels) overflows the C stack and zw_query_parse* crashes instead of returning an error"
+                                % " -> ".join(n for n in names if n not in ("yylex",)) , "detail": None})
+    return inst, findings
